@@ -179,8 +179,8 @@ CLAIMED["C01"] = _symx(
     "remove_entity, add_data, property-group edits, close + re-open) on a stored tree with symbolic geometry and values; the "
     "operation at each step is a symbolic choice (every sequence of the bounded length is one explored path); z3 validity of "
     "'tree read by a fresh Workspace == tree the live workspace shows', term by term; counterexamples replayed on real numpy/h5py",
-    "bounded symbolic model checking, partial: for every sequence of 2 (thorough: 3) operations from an alphabet of 15 on a tree of "
-    "two groups, one object (3-vertex point set or curve) with symbolic vertices, a float data set with symbolic values, an integer "
+    "bounded symbolic model checking, partial: for every sequence of 2 (thorough: 3) operations from an alphabet of 20 on a tree of "
+    "two groups, a second object with data, one target object (3-vertex point set or curve) with symbolic vertices, a float data set with symbolic values, an integer "
     "data set and a property group, the real code runs on a real HDF5 file (proxy keeps symbolic payloads) and z3 proves that a "
     "fresh Workspace shows exactly the entities the live one shows (none lost, duplicated or resurrected), each with the same "
     "class, parent, name, flags, vertices, cells, values and property-group membership. Newly assigned arrays, the removed "
@@ -201,7 +201,7 @@ CLAIMED["C05"] = _symx(
     "replayed on real numpy/h5py",
     "bounded symbolic model checking, partial: on a tree {group {object with four data sets in two overlapping property groups, "
     "nested group {curve with cell data}}, object with data} every combination of removed entity (8) x entry point (workspace, "
-    "parent) x delete permission (on, off) x follow-up (none, copy a survivor, remove another entity, add data, re-open then copy) "
+    "parent) x delete permission (on, off, off and re-read from the file) x follow-up (none, copy a survivor, remove another entity, add data, re-open then copy) "
     "is explored: the entity and its descendants are gone from the tree, lookups by identifier and name, listings (references "
     "dropped, collector run) and the file's containers; no property group lists removed data; survivors (symbolic vertices and "
     "values) are unchanged live and re-read; follow-ups succeed; a workspace removal with the permission off is refused and "
@@ -236,8 +236,9 @@ CLAIMED["C09"] = _symx(
     "counterexamples replayed on real numpy/h5py",
     "bounded symbolic model checking, partial: for one step from {open and close only, set vertices, set values, rename, move, copy, "
     "remove a vertex, remove data, add data, property-group membership, remove object, set flags, set cells, remove a cell, modify "
-    "values in place} on a point set or curve with symbolic state, every HDF5 node of the unrelated group, object (symbolic "
-    "vertices), float (symbolic values) / text / referenced data, their data and group types, the unrelated property group and the "
+    "values / vertices in place, empty property group, give a data another type, add boolean / float data of an existing type} on a "
+    "point set or curve with symbolic state, every HDF5 node of the unrelated group, objects (symbolic vertices; one stored under "
+    "another object), float (symbolic values; one sharing the target data's type) / text / referenced / boolean data, their data and group types, the unrelated property group and the "
     "project header attributes is identical before and after (same nodes, same attributes, same datasets). Other reachable "
     "states, other entity classes and byte-level identity of the file are outside.",
     _SYMX_NOTE + "; A-H5: symbolic payloads are kept beside the real HDF5 file by a proxy and handed back unchanged",
